@@ -6,6 +6,8 @@ CONSTANTS
   NVals = 1
   WithEmpty = FALSE
   DevNoDedup = FALSE
+  DevSharedPrefix = FALSE
+  DevStreamInsert = FALSE
   N = 3
 INVARIANTS CursorInRange
 PROPERTIES CursorSticks CursorAdjacent
